@@ -203,7 +203,7 @@ type vFrame struct {
 	op      byte
 	masked  bool
 	key     [4]byte
-	lenForm int // 7, 16 or 64
+	lenForm int    // 7, 16 or 64
 	payload []byte // unmasked
 }
 
@@ -340,9 +340,9 @@ type vDir struct {
 	items      []vItem
 	sendAPI    int
 	recvAPI    int
-	maxPayload int // receiver's MaxPayloadBytes (0: package default)
-	raw        bool   // sender is the scripted raw peer
-	rawBytes   []byte // frames the raw peer writes
+	maxPayload int      // receiver's MaxPayloadBytes (0: package default)
+	raw        bool     // sender is the scripted raw peer
+	rawBytes   []byte   // frames the raw peer writes
 	pings      [][]byte // ping payloads in wire order
 	expectEnd  bool     // receiver finally expects the end of the stream (close)
 	readSeed   uint64   // PRNG seed for the Conn.Read piece sizes
